@@ -250,20 +250,43 @@ class Loader:
         return out
 
     def mro(self, cref, eng):
-        seen = []
+        """method resolution order: C3 linearisation as CPython computes it (bases that are not repository classes - object,
+        external classes - are left out: they define nothing the interpreter looks up here)"""
+        memo = {}
 
-        def walk(c):
-            if isinstance(c, ClassRef):
-                if any(x.qualname == c.qualname for x in seen if isinstance(x, ClassRef)):
-                    return
-                seen.append(c)
-                for b in self.class_bases(c, eng):
-                    walk(b)
-        walk(cref)
-        return seen
+        def lin(c):
+            if c.qualname in memo:
+                return memo[c.qualname]
+            bases = [b for b in self.class_bases(c, eng) if isinstance(b, ClassRef)]
+            seqs = [list(lin(b)) for b in bases] + [list(bases)]
+            out = [c]
+            while True:
+                seqs = [s_ for s_ in seqs if s_]
+                if not seqs:
+                    break
+                cand = None
+                for s_ in seqs:
+                    h = s_[0]
+                    if not any(h.qualname == t.qualname for o in seqs for t in o[1:]):
+                        cand = h
+                        break
+                if cand is None:
+                    raise Unsupported('inconsistent class hierarchy (no C3 linearisation) for %s' % c.qualname)
+                out.append(cand)
+                for s_ in seqs:
+                    if s_ and s_[0].qualname == cand.qualname:
+                        del s_[0]
+            memo[c.qualname] = out
+            return out
+        return lin(cref)
 
-    def class_member(self, cref, name, eng, bind=None):
-        for c in self.mro(cref, eng):
+    def class_member(self, cref, name, eng, bind=None, after=None):
+        order = self.mro(cref, eng)
+        if after is not None:
+            # super(): the lookup continues behind the class whose method is running
+            idx = [i for i, c in enumerate(order) if c.qualname == after.qualname]
+            order = order[idx[0] + 1:] if idx else []
+        for c in order:
             found = None
             for st in c.node.body:
                 if isinstance(st, ast.FunctionDef) and st.name == name:
